@@ -1351,8 +1351,7 @@ int QSexact_verify (
             
             /* test optimality of constructed solution */
             own_basis = dbl_QSget_basis(p_dbl);
-            if( own_basis ) basis = own_basis;
-            rval = QSexact_optimal_test(p_mpq, x_mpq, y_mpq, basis);
+            rval = QSexact_optimal_test(p_mpq, x_mpq, y_mpq, own_basis ? own_basis : basis);
             if( rval )
             {
                *result = 1;
@@ -1403,8 +1402,7 @@ int QSexact_verify (
             
          /* test optimality of constructed solution */
          own_basis = dbl_QSget_basis(p_dbl);
-            if( own_basis ) basis = own_basis;
-         rval = QSexact_optimal_test(p_mpq, x_mpq, y_mpq, basis);
+         rval = QSexact_optimal_test(p_mpq, x_mpq, y_mpq, own_basis ? own_basis : basis);
          if( rval )
          {
             *result = 1;
